@@ -1052,10 +1052,10 @@ func runContractV1(s *Session) {
 				bs := chain.supplement([]types.Transaction{txn})
 				ms := consensus.NewMidState(chain.s)
 				if err := consensus.ValidateTransaction(ms, txn, bs.Transactions[0]); err != nil {
-					e.logf("host: transaction refused: %v", err)
+					e.logf("host: transaction refused")
 					verdict = 0
 				} else if err := chain.mine([]types.Transaction{txn}, nil); err != nil {
-					e.logf("host: block refused: %v", err)
+					e.logf("host: block refused")
 					verdict = 0
 				}
 			}
